@@ -283,6 +283,26 @@ func genC06(t *Tape) *Plan {
 	for s := 0; s < k.Slots; s++ {
 		g.Connect(s)
 	}
+	if k.V5Pct == 100 && t.Draw("c06.twogroups", 2) == 0 {
+		// overlap skeleton: one client is a member of two groups that match the same topic, each group has another
+		// member of its own, and the topic is published a few times (which member a group picks is the broker's
+		// choice, so several publishes are needed to see every combination). The random tail follows.
+		sub := func(slot int, filter string) {
+			i := g.Subscribe(slot)
+			g.plan.Ops[i].Pkt.Filters = []refcodec.Filter{{Filter: filter, Opts: 0}}
+		}
+		sub(0, "$share/g1/t")
+		sub(0, "$share/g2/t")
+		sub(1, "$share/g1/t")
+		sub(2, "$share/g2/t")
+		for i, n := 0, 3+t.Draw("c06.twogroups.pubs", 4); i < n; i++ {
+			pi := g.Publish(3)
+			g.plan.Ops[pi].Pkt.Topic = "t"
+		}
+		for i := range g.plan.Ops {
+			g.plan.Ops[i].Concurrent = false
+		}
+	}
 	p := g.Run()
 	if k.V5Pct == 100 {
 		for i := range p.Ops {
